@@ -33,7 +33,7 @@ def scenario(seed, cfg):
         def __init__(self): self.i = 0
         @asyncio.coroutine
         def get_item(self):
-            for _ in range(rnd.randrange(3)): yield from asyncio.sleep(0)
+            for _ in range(rnd.randrange(5)): yield from asyncio.sleep(0)
             if mode == 'source-raises' and self.i == fail_at: state['failed'] = 'source'; raise Boom('source')
             if self.i >= n_items: return None
             self.i += 1
@@ -52,11 +52,16 @@ def scenario(seed, cfg):
             log.append(('end', self.k, item))
 
     fail_at = rnd.randrange(max(1, n_items)); fail_task = rnd.randrange(n_tasks)
+    early_stop = rnd.choice([None, None, 1, 2, 3])          # >= 1: process() has had its first step (stop() on a pipeline that is not running is a no-op by design)
 
     async def run():
         pipe = Pipeline(Source(), [Task(k) for k in range(n_tasks)])
         pipe.concurrency = rnd.randrange(0, 4)          # 0: started while paused (resumed by the meddler below)
         main = asyncio.ensure_future(pipe.process())
+        if mode == 'stop' and early_stop is not None:
+            # a stop request in one of the very first scheduling slots: after the first step of process() but before the producer's first step (1), ...
+            for _ in range(early_stop): await asyncio.sleep(0)
+            state['stopped'] = True; pipe.stop()
         async def meddle():
             for _ in range(rnd.randrange(0, 5)):
                 for _ in range(rnd.randrange(1, 6)): await asyncio.sleep(0)
